@@ -100,6 +100,11 @@ func pinList() []pin {
 		doc("select-1", `{@select {array} 1}`, arr123, "2"),
 		truthyPin("in-yes", `{@in b {@ a b c}}`, true),
 		truthyPin("in-no", `{@in z {@ a b c}}`, false),
+		// membership, not containment of a run: a two-element list is no element of [a b c d]
+		truthyPin("in-run-of-elements", `{@in {@ b c} {@ a b c d}}`, false),
+		truthyPin("in-run-at-start", `{@in {$ a b} {@ a b c d}}`, false),
+		truthyPin("in-run-at-end", `{@in {@ c d} {@ a b c d}}`, false),
+		truthyPin("in-whole-list", `{@in {@ a b} {@ a b}}`, false),
 
 		// ---- witnesses of recorded defects
 		{"known:" + fpSplitMulti, func(c *run.Ctx) {
